@@ -78,6 +78,7 @@ impl<'a, SlotType: 'a + Debug> MMapMeta<'a, SlotType> {
     /// Returns a single subscriber -- for forthcoming events only
     pub fn subscribe_to_new_events_only(self: &Arc<Self>) -> MMapMetaDynamicSubscriber<'a, SlotType> {
         let first_element_slot_id = self.mmap_contents.consumer_tail.load(Relaxed);
+        #[cfg(feature = "verif")] crate::verif::point(crate::verif::MMAP_SUBSCRIBE_AFTER_TAIL);
         MMapMetaDynamicSubscriber {
             head:                AtomicUsize::new(first_element_slot_id),
             buffer:              self.buffer_as_slice_mut(),
@@ -93,6 +94,7 @@ impl<'a, SlotType: 'a + Debug> MMapMeta<'a, SlotType> {
     /// the first of the "forthcoming" events
     pub fn subscribe_to_separated_old_and_new_events(self: &Arc<Self>) -> (MMapMetaFixedSubscriber<'a, SlotType>, MMapMetaDynamicSubscriber<'a, SlotType>) {
         let tail = self.mmap_contents.consumer_tail.load(Relaxed);
+        #[cfg(feature = "verif")] crate::verif::point(crate::verif::MMAP_SUBSCRIBE_AFTER_TAIL);
         (
             MMapMetaFixedSubscriber {
                 head:       AtomicUsize::new(0),
@@ -177,9 +179,12 @@ impl<'a, SlotType: 'a + Debug> MetaPublisher<'a, SlotType> for MMapMeta<'a, Slot
     fn publish<F: FnOnce(&mut SlotType)>(&self, setter: F) -> (Option<NonZeroU32>, Option<F>) {
         let mutable_self = unsafe { &mut *(*(self as *const Self as *const std::cell::UnsafeCell<Self>)).get() };
         let tail = self.mmap_contents.publisher_tail.fetch_add(1, Relaxed);
+        #[cfg(feature = "verif")] crate::verif::point(crate::verif::MMAP_PUBLISH_AFTER_RESERVE);
         let slot = unsafe { mutable_self.buffer.get_unchecked_mut(tail) };
         setter(slot);
+        #[cfg(feature = "verif")] crate::verif::point(crate::verif::MMAP_PUBLISH_AFTER_SETTER);
         while self.mmap_contents.consumer_tail.compare_exchange_weak(tail, tail+1, Relaxed, Relaxed).is_err() {
+            #[cfg(feature = "verif")] crate::verif::spin(crate::verif::MMAP_PUBLISH_SPIN);
             std::hint::spin_loop();
         }
         (NonZeroU32::new(1 + tail as u32), None)
@@ -268,10 +273,12 @@ impl<'a, SlotType: 'a + Debug> MetaSubscriber<'a, SlotType> for MMapMetaDynamicS
 
         let mutable_self = unsafe { &mut *(*(self as *const Self as *const std::cell::UnsafeCell<Self>)).get() };
         let head = self.head.fetch_add(1, Relaxed);
+        #[cfg(feature = "verif")] crate::verif::point(crate::verif::MMAP_CONSUME_AFTER_RESERVE);
         let tail = self.meta_mmap_log_topic.mmap_contents.consumer_tail.load(Relaxed);
         // check if there is an element available
         if head >= tail {
             while self.head.compare_exchange_weak(head+1, head, Relaxed, Relaxed).is_err() {
+                #[cfg(feature = "verif")] crate::verif::spin(crate::verif::MMAP_CONSUME_RECEDE_SPIN);
                 std::hint::spin_loop();
             }
             report_empty_fn();
@@ -326,9 +333,11 @@ impl<'a, SlotType: 'a + Debug> MetaSubscriber<'a, SlotType> for MMapMetaFixedSub
 
         let mutable_self = unsafe { &mut *(*(self as *const Self as *const std::cell::UnsafeCell<Self>)).get() };
         let head = self.head.fetch_add(1, Relaxed);
+        #[cfg(feature = "verif")] crate::verif::point(crate::verif::MMAP_CONSUME_AFTER_RESERVE);
         // check if there is an element available
         if head >= self.fixed_tail {
             while self.head.compare_exchange_weak(head+1, head, Relaxed, Relaxed).is_err() {
+                #[cfg(feature = "verif")] crate::verif::spin(crate::verif::MMAP_CONSUME_RECEDE_SPIN);
                 std::hint::spin_loop();
             }
             report_empty_fn();
